@@ -6,6 +6,7 @@ import CoercionModel.Props.C07
 import CoercionModel.Model.Skeletons
 import CoercionModel.Generated.F10
 import CoercionModel.Proofs.TranslatedFinal
+import CoercionModel.Proofs.TranslatedFinalChain
 import CoercionModel.Proofs.SchedLive
 set_option linter.unusedSimpArgs false
 /-
@@ -166,5 +167,27 @@ theorem launch_loop_never_stuck (c : Sched.Cfg) (hc : 1 ≤ c.conc) (t : List Sc
 theorem launch_loop_terminates (c : Sched.Cfg) (t : List Sched.Label) (s : Sched.S) (hr : Sched.run c {} t = some s) :
     t.length ≤ 5 * c.n + 3 :=
   Sched.every_run_is_short c t s hr
+
+/-- The whole `finalStates` machine (start → bypassChecks → planChecks → blocks → end of final.go), translated state by
+    state on every run (translator T7, Generated/T7.lean) and run as statemachine.Run runs it (stop on req.Err or on a nil
+    req.Next), leaves on the plan exactly the status `Model/Engine.final` computes from what the machine looks at — the
+    bypass group, the four check groups, the block statuses — and, when that status is Failed, the reason `final` names.
+    So R8 (status and reason are a function of the recorded object states, `final_truthful` etc.) is a statement about
+    the current source of final.go, not only about the hand-written chain. -/
+theorem translated_finalStates (p : Plan) :
+    (Generated.T7.run 6 .start p).1.status =
+      (Engine.final (TranslatedFinal.bypassVerdict p) (TranslatedFinal.verdictOf p.pre) (TranslatedFinal.verdictOf p.cont)
+        (TranslatedFinal.verdictOf p.post) (TranslatedFinal.verdictOf p.deferred) (TranslatedFinal.blocksOk p)).1 ∧
+    ((Generated.T7.run 6 .start p).1.status = .failed →
+      (Generated.T7.run 6 .start p).1.reason =
+        (Engine.final (TranslatedFinal.bypassVerdict p) (TranslatedFinal.verdictOf p.pre) (TranslatedFinal.verdictOf p.cont)
+          (TranslatedFinal.verdictOf p.post) (TranslatedFinal.verdictOf p.deferred) (TranslatedFinal.blocksOk p)).2) :=
+  TranslatedFinal.finalStates_eq p
+
+/-- the translated machine always terminates within its fuel: it never reports the out-of-fuel value on a plan
+    whose final status it derived (6 = the five states + 1) — witnessed on a failing and a completing plan -/
+example : (Generated.T7.run 6 .start { blocks := [{ status := .completed }, { status := .failed }] }).1.reason = .block := by decide
+example : (Generated.T7.run 6 .start { post := some { status := .completed }, blocks := [{ status := .completed }] }) =
+    ({ status := .completed, post := some { status := .completed }, blocks := [{ status := .completed }] }, false) := by decide
 
 end Coercion.C04
